@@ -25,4 +25,5 @@ if sh: print('  shrunk:', json.dumps(sh)[:600])
 PY
   done
 done
+if [ -n "${MC_OUT:-}" ]; then mkdir -p "$MC_OUT"; for f in $vc/replays/*.json; do [ -f "$f" ] && cp "$f" "$MC_OUT/$(basename "$patch" .diff)__$(basename "$f")"; done; fi
 git -C /repo worktree remove --force $wt; rm -rf $vc
